@@ -13,7 +13,8 @@ RULE = ("real normalize_smiles / wc_similarity (pathway, ecfp, ecfp_inv) on ster
         "permutations of the molecules of a side (<= 4 molecules) or 20 random ones, RDKit re-spellings with "
         "random atom maps, isomer pairs whose sort keys (atom-pattern count, character sum) collide (mined from "
         "the corpus + constructed families), expected-vs-wrong pairs shipped with the validation set and random "
-        "pairs for symmetry/range; distinct non-trivial = distinct reactions with >= 2 molecules on a side")
+        "pairs for symmetry/range; the real `python -m synrbl benchmark` command on files whose expected/result columns "
+        "are variants of one another (all three methods, default threshold 1: every row must be counted correct); distinct non-trivial = distinct reactions with >= 2 molecules on a side")
 ASSUMPTIONS = ["domain: valid stereo-free reactions (no '@', '/', '\\\\' in the text) of closed-shell molecules",
                "a variant = same fragment multisets on both sides by the independent oracle"]
 TIMEOUT = {"quick": 600, "thorough": 2400}
@@ -33,6 +34,9 @@ def plan(tier, seed):
     shards = [{"ids": [r["id"] for r in c]} for c in common.stripe(pick, 10 if q else 30)]
     shards.append({"isomers": 150 if q else 2000})
     shards.append({"pairs": 300 if q else 1500})
+    # the consumer the property is named after: `python -m synrbl benchmark` counting rows as correct
+    for k in range(1 if q else 6):
+        shards.append({"benchmark": 90 if q else 150, "salt": k})
     return shards
 
 
@@ -175,6 +179,107 @@ def colliding_isomers(rng, n):
     return pairs[:n]
 
 
+HETERO = ["c1ccsc1", "c1cscn1", "Cc1nccs1", "c1ccc2sccc2c1", "c1cc[se]c1", "c1ccpcc1", "c1ccoc1", "c1cc[nH]c1",
+          "c1cnc2sccc2c1", "Cc1ccc(C)s1", "c1csc(-c2cccs2)c1", "O=C(O)c1cccs1", "c1ccc2scnc2c1", "c1cnsc1",
+          "c1ccc2[se]ccc2c1", "n1ccsc1N", "c1ccnnc1", "c1ncncn1", "c1cc2ccccc2o1", "Cn1ccnc1"]
+
+
+def benchmark_rows(rng, n):
+    """(expected, result) pairs that are variants of one another (same fragment multisets by the oracle):
+    corpus reactions + small reactions over S / Se / P / O / N hetero-aromatics in aromatic and Kekule spelling"""
+    base = [r["reaction"] for r in rng.sample(corpus.validation_rows(), 3 * n)]
+    for _ in range(n // 2):
+        a, b = rng.sample(HETERO, 2)
+        base.append("%s.%s.CC(=O)Cl>>%s.CC(=O)O.%s" % (a, b, b, a))
+    rng.shuffle(base)
+    out = []
+    for rx in base:
+        if len(out) >= n:
+            break
+        rx = oracle.demap(rx) if ":" in rx else rx
+        if rx is None or not (stereo_free(rx) and oracle.in_domain_rsmi(rx)):
+            continue
+        f = oracle.rfrags(rx)
+        vs = [v for _, v in variants(rx, rng) if stereo_free(v) and oracle.rfrags(v) == f]
+        # Kekule form of every molecule, molecules reversed
+        try:
+            kek = ">>".join(".".join(Chem.MolToSmiles(Chem.MolFromSmiles(m), kekuleSmiles=True)
+                                     for m in side.split(".")[::-1]) for side in rx.split(">>"))
+            if oracle.rfrags(kek) == f:
+                vs.append(kek)
+        except Exception:
+            pass
+        if not vs:
+            continue
+        v = rng.choice(vs[-4:]) if rng.random() < 0.6 else rng.choice(vs)
+        out.append((rx, v) if rng.random() < 0.5 else (v, rx))
+    return out
+
+
+def benchmark_cli(pairs, method, tmp, tag):
+    """writes the files a rebalancing run would have written, runs the real CLI, returns its counts"""
+    import csv
+    import json
+    import os
+    import subprocess
+    src = os.path.join(tmp, "bench_%s.csv" % tag)
+    out = os.path.join(tmp, "bench_%s.json" % tag)
+    n_rb = n_mcs = 0
+    with open(src, "w", newline="") as f:
+        w = csv.writer(f)
+        w.writerow(["reaction", "expected_reaction", "solved", "solved_by", "confidence"])
+        for i, (exp, act) in enumerate(pairs):
+            by = "rule-based" if i % 2 == 0 else "mcs-based"
+            n_rb += by == "rule-based"
+            n_mcs += by == "mcs-based"
+            w.writerow([act, exp, True, by, "" if by == "rule-based" else 0.9])
+    with open(src + ".stats", "w") as f:
+        json.dump({"reaction_cnt": len(pairs), "balanced_cnt": 0, "rb_solved": n_rb, "rb_applied": n_rb,
+                   "mcs_applied": n_mcs, "mcs_solved": n_mcs, "confident_cnt": n_mcs}, f)
+    p = subprocess.run([common.PY, "-m", "synrbl", "benchmark", src, "-o", out, "--similarity-method", method],
+                       cwd=tmp, capture_output=True, text=True, timeout=900, env=common.worker_env())
+    if p.returncode != 0 or not os.path.exists(out):
+        return None, p.stderr[-600:], (n_rb, n_mcs)
+    with open(out) as f:
+        st = json.load(f)
+    return st, None, (n_rb, n_mcs)
+
+
+def benchmark_part(n, rng, res):
+    import shutil
+    import tempfile
+    pairs = benchmark_rows(rng, n)
+    tmp = tempfile.mkdtemp(prefix="verif_c17b_")
+    try:
+        for method in METHODS:
+            st, err, (n_rb, n_mcs) = benchmark_cli(pairs, method, tmp, method)
+            res.ev()
+            res.count("benchmark_cli_runs")
+            res.count("benchmark_rows", len(pairs))
+            if st is None:
+                res.viol("benchmark_cli_failed", method=method, stderr=err, case={"pairs": pairs[:3]})
+                continue
+            if st.get("total_correct") == len(pairs):
+                continue
+            # localise: one row at a time through the same command
+            bad = []
+            for k, pr in enumerate(pairs):
+                s1, _, _ = benchmark_cli([pr], method, tmp, "one")
+                if s1 is None or s1.get("total_correct") != 1:
+                    bad.append(pr)
+                if len(bad) >= 3:
+                    break
+            res.viol("benchmark_counts_variant_as_wrong", method=method, rows=len(pairs),
+                     total_correct=st.get("total_correct"), case={"expected": bad[0][0], "result": bad[0][1]} if bad
+                     else {"pairs": pairs[:3]}, more=bad[1:])
+        for exp, act in pairs:
+            res.case(["bench", exp, act])
+        if pairs:
+            res.sample({"benchmark_row": {"expected_reaction": pairs[0][0][:120], "reaction": pairs[0][1][:120]}})
+    finally:
+        shutil.rmtree(tmp, ignore_errors=True)
+
+
 def work(shard, res, tier, seed):
     import warnings
     warnings.filterwarnings("ignore")
@@ -192,11 +297,26 @@ def work(shard, res, tier, seed):
                 s = float(wc_similarity(c["reaction"], v, method=m))
                 if s != 1.0:
                     res.viol("variant_similarity_not_one", case=c, method=m, similarity=s)
+        elif "expected" in c:
+            import shutil
+            import tempfile
+            tmp = tempfile.mkdtemp(prefix="verif_c17b_")
+            try:
+                for m in METHODS:
+                    res.ev()
+                    st, err, _ = benchmark_cli([(c["expected"], c["result"])], m, tmp, "replay")
+                    if st is None or st.get("total_correct") != 1:
+                        res.viol("benchmark_counts_variant_as_wrong", method=m, case=c, rows=1,
+                                 total_correct=None if st is None else st.get("total_correct"))
+            finally:
+                shutil.rmtree(tmp, ignore_errors=True)
         elif "reaction" in c:
             check_reaction(c["reaction"], rng, res, normalize_smiles, wc_similarity)
         elif "a" in c:
             check_pair(c["a"], c["b"], res, wc_similarity)
         return
+    if "benchmark" in shard:
+        benchmark_part(shard["benchmark"], rng, res)
     if "ids" in shard:
         byid = {r["id"]: r for r in corpus.validation_rows()}
         for i in shard["ids"]:
@@ -245,4 +365,4 @@ def work(shard, res, tier, seed):
 def conclude_args(res, tier, seed):
     return {"need": {"idempotence_evaluated": 200, "variants_evaluated:perm": 500,
                      "variants_evaluated:respell": 200, "pairs_evaluated": 150,
-                     "colliding_isomer_pairs": 20}, "min_cases": 100}
+                     "colliding_isomer_pairs": 20, "benchmark_cli_runs": 3, "benchmark_rows": 150}, "min_cases": 100}
